@@ -1,14 +1,30 @@
 (** C06 - decoding arbitrary bytes terminates with a documented outcome.
     Termination: [decode] is a total Gallina function (structural recursion; the counted and the byte-sized loops
     and the stream loop are bounded iterations whose exhaustion is the distinguished outcome [OFuel], never a
-    normal-looking value).  PROVED: it never pulls more than the input holds, and the pump itself adds no failure
-    mode - an undocumented outcome can only come from one of the enumerated [internal] sites of the processor.
-    NOT YET PROVED: that those sites are unreachable in strict mode for coherent tables; decided by the oracle
-    (exception classes escaping from the implementation on random / mutated / mistyped inputs) and the model
-    correspondence (outcome classes incl. crashes).
+    normal-looking value).
+    PROVED IN FULL for the model, strict mode (Proofs/Safe1-4.v): for EVERY byte string and EVERY root - any non-union
+    structure type passing [safe_ty], commands, responses to a known command code (either encryption flag), streams
+    shorter than the model's loop bound of 2^64 bytes - on tables passing [msg_safe] (which the regenerated tables do
+    by computation, as do all 231 decodable types and all 468 area types), decoding ends accepted, with a constraint
+    error, depleted or superfluous: never with an internal error, never at a loop bound; and it never pulls more than
+    the input holds.
+    The checks: size fields unsigned and of non-negative width; a list directly follows its count; a union's selector
+    is an earlier primitive field; no union is decoded without a selector; selectable union members are sized; member
+    names distinct; session structures carry the attribute word and start with a field that takes at least a byte;
+    the opaque-parameter type is a TPM2B of primitives; the four command-code maps have the same keys.
+    The proof: (1) nothing ever removes the limit of a constraint object, so closing a region always finds one;
+    (2) a COMPLETED strict run has charged every live listed region exactly the bytes it read and has closed the
+    regions it opened exactly filled - hence the session loop makes progress and reaches its governing size, the
+    by-product values have the declared shape (session attribute words are there), and at the end of a response no
+    listed region is still live; (3) every message takes at least one byte, so the stream loop ends by running out
+    of input, not of iterations.
+    NOT PROVED: warn mode (there the property C08 "never aborts" is decided by the oracle); the tie to /repo is the
+    crash oracle (exception classes escaping from the implementation on random / mutated / mistyped inputs) and
+    the model correspondence (outcome classes incl. crashes).
     Statement file: theorem statements, [exact], Print Assumptions only. *)
 From Coq Require Import ZArith List String Bool.
-From TV Require Import Layout.Types Model.Monad Model.Message Model.Pump Proofs.PumpProofs.
+From TV Require Import Layout.Types gen.Tables Base.Bytes Model.Monad Model.Message Model.Pump Proofs.PumpProofs Proofs.Sim11
+  Proofs.Safe1 Proofs.Safe3 Proofs.Safe4.
 Import ListNotations.
 Open Scope Z_scope.
 
@@ -37,3 +53,58 @@ Proof.
   - intros [= _ <-]. reflexivity.
 Qed.
 Print Assumptions C06_undocumented_outcome_only_from_an_internal_site_partial.
+
+(** every non-union structure type passing the check, every byte string: a documented outcome *)
+Theorem C06_structure_types_never_crash :
+  forall T t bs, safe_ty t = true -> nonunion t = true -> Forall isbyte bs -> documented (snd (decode T true (RType t) bs)).
+Proof. exact types_never_crash. Qed.
+Print Assumptions C06_structure_types_never_crash.
+
+(** the regenerated tables pass the check: all decodable types and all handle / parameter area types *)
+Theorem C06_tables_safe : safe_types Tables.T = true.
+Proof. vm_compute. reflexivity. Qed.
+Print Assumptions C06_tables_safe.
+
+Theorem C06_every_decodable_type_of_the_tables :
+  forall n t bs, In (n, t) (types Tables.T) -> nonunion t = true -> Forall isbyte bs ->
+    documented (snd (decode Tables.T true (RType t) bs)).
+Proof.
+  intros n t bs Hin Hn Hb. apply types_never_crash; [|exact Hn|exact Hb].
+  pose proof C06_tables_safe as H. unfold safe_types in H. apply andb_prop in H as [H _].
+  rewrite forallb_forall in H. specialize (H (n, t) Hin). cbn [snd] in H.
+  unfold nonunion in Hn. destruct (is_union t); [discriminate|exact H].
+Qed.
+Print Assumptions C06_every_decodable_type_of_the_tables.
+
+(** EVERY root: any byte string, strict mode - a documented outcome *)
+Theorem C06_every_root_documented :
+  forall T r bs, msg_safe T = true -> root_safe T r -> Forall isbyte bs -> within_bound r bs ->
+    documented (snd (decode T true r bs)).
+Proof. intros T r bs H. exact (any_root_documented T H r bs). Qed.
+Print Assumptions C06_every_root_documented.
+
+(** the regenerated tables pass the message-level check *)
+Theorem C06_tables_msg_safe : msg_safe Tables.T = true.
+Proof. vm_compute. reflexivity. Qed.
+Print Assumptions C06_tables_msg_safe.
+
+(** commands, and streams below the loop bound, at the regenerated tables: no hypothesis left but byte-ness *)
+Theorem C06_commands_and_streams :
+  forall bs, Forall isbyte bs ->
+    documented (snd (decode Tables.T true RCommand bs)) /\
+    (Z.of_nat (List.length bs) < Z.pos stream_bound -> documented (snd (decode Tables.T true RStream bs))).
+Proof.
+  intros bs Hb. split.
+  - apply (any_root_documented Tables.T C06_tables_msg_safe RCommand bs Logic.I Hb). intros H. discriminate H.
+  - intros Hl. apply (any_root_documented Tables.T C06_tables_msg_safe RStream bs Logic.I Hb). intros _. exact Hl.
+Qed.
+Print Assumptions C06_commands_and_streams.
+
+(** responses to every command code of the tables *)
+Theorem C06_responses :
+  forall cc enc bs, lookupZ cc (rsp_handles Tables.T) <> None -> Forall isbyte bs ->
+    documented (snd (decode Tables.T true (RResponse (Some cc) enc) bs)).
+Proof.
+  intros cc enc bs Hc Hb. apply (any_root_documented Tables.T C06_tables_msg_safe (RResponse (Some cc) enc) bs Hc Hb). intros H. discriminate H.
+Qed.
+Print Assumptions C06_responses.
